@@ -890,3 +890,36 @@ MUTANTS += [
       '        import hashlib\n        return f"#{hashlib.md5(a_string.encode(\'utf-8\')).hexdigest()[:6]}"'),
     T("c16-excel-colour-zfill", ["C16"], XL, '        return f"#{hash_str[2:8]:0>6}"', '        return f"#{hash_str[2:8].zfill(6)}"'),
 ]
+
+_DRAIN_OLD = "        constraints_not_from_assertion = [\n            c\n            for c in self.problem.constraints.values()\n            if not c._created_from_assertion\n        ]\n"
+_PAIR_OLD = ("            for i in range(nb_intervals):\n                start_task_i, end_task_i = busy_intervals[i]\n"
+             "                for k in range(i + 1, nb_intervals):\n                    start_task_k, end_task_k = busy_intervals[k]\n")
+_CHAIN_OLD = "    if n > 1:\n        constraints.append(z3.And([a[i] < a[i + 1] for i in range(n - 1)]))"
+MUTANTS += [
+    # ---- the spellings the fifth twin round taught the extractor: each one again with the wrong polarity / offset ----
+    T("c01-drain-through-filterfalse", ["C01", "C10"], SV, _DRAIN_OLD,
+      "        from itertools import filterfalse\n        from operator import attrgetter\n        constraints_not_from_assertion = list(filterfalse(attrgetter('_created_from_assertion'), self.problem.constraints.values()))\n"),
+    B("c01-drain-through-filter-wrong-polarity", ["C01", "C10"], SV, _DRAIN_OLD,
+      "        from operator import attrgetter\n        constraints_not_from_assertion = list(filter(attrgetter('_created_from_assertion'), self.problem.constraints.values()))\n"),
+    T("c02-pairwise-enumerate-and-slice", ["C02"], SV, _PAIR_OLD,
+      "            for rank, (start_task_i, end_task_i) in enumerate(busy_intervals, start=1):\n                for start_task_k, end_task_k in busy_intervals[rank:]:\n"),
+    B("c02-pairwise-enumerate-starts-one-too-far", ["C02"], SV, _PAIR_OLD,
+      "            for rank, (start_task_i, end_task_i) in enumerate(busy_intervals, start=2):\n                for start_task_k, end_task_k in busy_intervals[rank:]:\n"),
+    B("c02-pairwise-slice-skips-the-neighbour", ["C02"], SV, _PAIR_OLD,
+      "            for rank, (start_task_i, end_task_i) in enumerate(busy_intervals, start=1):\n                for start_task_k, end_task_k in busy_intervals[rank + 1:]:\n"),
+    T("c09-chain-over-zipped-neighbours", ["C09"], UT, _CHAIN_OLD,
+      "    pairs = list(zip(a, a[1:]))\n    if pairs:\n        constraints.append(z3.And([lo < hi for lo, hi in pairs]))"),
+    B("c09-chain-over-every-second-neighbour", ["C09"], UT, _CHAIN_OLD,
+      "    pairs = list(zip(a, a[2:]))\n    if pairs:\n        constraints.append(z3.And([lo < hi for lo, hi in pairs]))"),
+    B("c09-chain-only-from-three-values", ["C09"], UT, _CHAIN_OLD,
+      "    if n > 2:\n        constraints.append(z3.And([a[i] < a[i + 1] for i in range(n - 1)]))"),
+    B("c09-early-return-for-two-values", ["C09"], UT, _CHAIN_OLD,
+      "    if len(a) < 3:\n        return a, constraints\n    constraints.append(z3.And([a[i] < a[i + 1] for i in range(n - 1)]))"),
+    T("c09-early-return-for-one-value", ["C09"], UT, _CHAIN_OLD,
+      "    if len(a) < 2:\n        return a, constraints\n    constraints.append(z3.And([a[i] < a[i + 1] for i in range(n - 1)]))"),
+    B("c16-excel-colour-padded-to-five", ["C16"], XL, '        return f"#{hash_str[2:8]:0>6}"', '        return "#" + hash_str[2:8].rjust(5, "0")'),
+    T("c16-excel-colour-rjust", ["C16"], XL, '        return f"#{hash_str[2:8]:0>6}"', '        return "#" + hash_str[2:8].rjust(6, "0")'),
+    B("c01-base-store-return-before-the-append", ["C01"], BS,
+      "        self._z3_assertions.append(z3_assertion)\n        self._z3_assertion_hashes.append(assertion_hash)\n        return True",
+      "        if len(self._z3_assertions) > 1000:\n            return True\n        self._z3_assertions.append(z3_assertion)\n        self._z3_assertion_hashes.append(assertion_hash)\n        return True"),
+]
